@@ -450,6 +450,13 @@ func runCase(run sink, prun *ev.Run, i int, caseID string) {
 	var sampWG sync.WaitGroup
 	stopSamp := make(chan struct{})
 	var samples atomic.Int64
+	// In every other case the sampler is also the (only) consumer of results: it acknowledges
+	// terminal results it has seen with AckResult - while the receiver keeps appending - and
+	// keeps them; an acknowledged result counts as represented, and nothing else may vanish.
+	acker := i%2 == 0
+	acked := map[uint64]bool{}
+	var ackedRes []*client.OpResult
+	ar := rand.New(rand.NewSource(r.Int63()))
 	// sampler: every id whose Q returned is pending or resulted
 	sampWG.Add(1)
 	go func() {
@@ -478,10 +485,38 @@ func runCase(run sink, prun *ev.Run, i int, caseID string) {
 					seen[rr.OperationID] = true
 				}
 			}
+			for id := range acked {
+				seen[id] = true
+			}
 			for id := uint64(1); id <= upTo; id++ {
 				if !seen[id] {
-					problem("operation-lost", fmt.Sprintf("operation %d was queued (Q returned) but is neither pending nor represented by a result", id))
+					problem("operation-lost", fmt.Sprintf("operation %d was queued (Q returned) but is neither pending, nor represented by a result, nor acknowledged by the application (%d acknowledged so far)", id, len(acked)))
 					return
+				}
+			}
+			if acker && ar.Intn(2) == 0 {
+				var batch []*client.OpResult
+				inBatch := map[uint64]bool{}
+				for _, rr := range res {
+					if rr != nil && rr.OperationID != 0 && !acked[rr.OperationID] && !inBatch[rr.OperationID] && terminal(fib, rr.ProgrammingResult) && ar.Intn(3) > 0 {
+						batch = append(batch, rr)
+						inBatch[rr.OperationID] = true
+					}
+				}
+				if len(batch) > 0 {
+					if err := c.AckResult(batch...); err != nil {
+						problem("ack-of-present-result-failed", fmt.Sprintf("AckResult of %d results just returned by Results(): %v", len(batch), err))
+						return
+					}
+					for _, rr := range res {
+						// everything recorded under the acknowledged ids goes with them (in FIB mode the RIB acknowledgement too)
+						if rr != nil && inBatch[rr.OperationID] {
+							ackedRes = append(ackedRes, rr)
+						}
+					}
+					for id := range inBatch {
+						acked[id] = true
+					}
 				}
 			}
 			samples.Add(1)
@@ -643,6 +678,11 @@ func runCase(run sink, prun *ev.Run, i int, caseID string) {
 		// exactly one terminal result per id; details match the queued operation
 		terms := map[uint64]int{}
 		for _, rr := range st.Results {
+			if rr != nil && acked[rr.OperationID] && terminal(fib, rr.ProgrammingResult) {
+				problem("acknowledged-result-still-queued", fmt.Sprintf("the terminal result of operation %d was acknowledged with AckResult and is still (or again) in Results()", rr.OperationID))
+			}
+		}
+		for _, rr := range append(append([]*client.OpResult{}, st.Results...), ackedRes...) {
 			if rr == nil || rr.OperationID == 0 {
 				continue
 			}
@@ -687,6 +727,7 @@ func runCase(run sink, prun *ev.Run, i int, caseID string) {
 	run.Eval(1)
 	run.Count("operations_queued", int64(total))
 	run.Count("conservation_samples", samples.Load())
+	run.Count("results_acknowledged_while_receiving", int64(len(acked)))
 	run.Count("await_converged_successes_checked", convergedOK.Load())
 	run.Seen("modes", fmt.Sprintf("fib=%v/violate=%s/final-response-only=%v", fib, violate, finalOnly))
 	if finalOnly && srv.violated.Load() {
